@@ -431,6 +431,13 @@ func interfaceToValue(v interface{}) vm.Value {
 			arr[i] = interfaceToValue(elem)
 		}
 		return vm.ArrayValue{Val: arr}
+	case []string:
+		// an undeclared query parameter given several times (ProcessQueryParams)
+		arr := make([]vm.Value, len(val))
+		for i, elem := range val {
+			arr[i] = vm.StringValue{Val: elem}
+		}
+		return vm.ArrayValue{Val: arr}
 	case map[string]interface{}:
 		obj := make(map[string]vm.Value)
 		for k, elem := range val {
